@@ -942,3 +942,36 @@ func (r *Run) onlyCallSite(fi *prog.FuncInfo) (*ast.CallExpr, ast.Node) {
 	}
 	return call, parent
 }
+
+// reachingWriters returns the functions of package pkgPath that write field f themselves or
+// through static calls of other functions of that package (method values and interface calls
+// are not followed).
+func (r *Run) reachingWriters(f *types.Var, pkgPath string) map[*types.Func]bool {
+	out := map[*types.Func]bool{}
+	for _, fa := range r.fieldAccesses(f) {
+		if !fa.Write || fa.Use.Pkg.PkgPath != pkgPath || fa.Use.Scope == nil {
+			continue
+		}
+		if fi := fa.Use.Scope.Fn; fi != nil {
+			out[fi.Obj.Origin()] = true
+		}
+	}
+	for changed := true; changed; {
+		changed = false
+		for _, fi := range r.P.AllFuncs() {
+			if fi.Pkg.PkgPath != pkgPath || fi.Decl.Body == nil || out[fi.Obj.Origin()] {
+				continue
+			}
+			ast.Inspect(fi.Decl.Body, func(nd ast.Node) bool {
+				if call, ok := nd.(*ast.CallExpr); ok {
+					if fn := r.P.CalleeFunc(fi.Pkg.TypesInfo, call); fn != nil && out[fn.Origin()] {
+						out[fi.Obj.Origin()] = true
+						changed = true
+					}
+				}
+				return true
+			})
+		}
+	}
+	return out
+}
